@@ -237,6 +237,25 @@ def run(check, repo: Repo) -> None:
                  fail_detail="a reduction touches the batch axis, or patterns are read and written with different indices: the result depends on the batch size")
     _batch_coverage(check, omod, cfn, loop, "calculate_origin")
 
+    # ---- R8 the first moments are formed in a floating type (coupled) ------------------------------------
+    # Σ I·k over a detector exceeds the range of 8/16-bit counts at once.  Two guarantees: the coordinate grids kr/kc are created in NumPy's default integer/float type
+    # (int64 / float64 — the products are then at least 64 bit), or the stored patterns are always floating (the intensities_4d setter converts to the configured real
+    # dtype).  Grids created in the DATA's dtype together with a setter that keeps integer input wrap around silently.
+    grids = [(nm_, d_) for nm_ in ("kr", "kc") for d_ in definitions(sfn, nm_) if isinstance(d_, ast.Call) and (call_name(d_) or "").endswith("arange")]
+    _dm8, iset = repo.func(f"{DM}:PtychographyDatasetRaster.intensities_4d@setter") if repo.has(f"{DM}:PtychographyDatasetRaster.intensities_4d@setter") else repo.func(f"{DM}:PtychographyDatasetBase.intensities_4d@setter")
+    vcalls = [c for c in calls_in(iset) if (call_name(c) or "").endswith("validate_array")]
+    float_store = False
+    for c in vcalls:
+        dt_ = kwarg(c, "dtype") or (c.args[2] if len(c.args) > 2 else None)
+        float_store = dt_ is not None and "dtype_real" in unparse(dt_) and not isinstance(dt_, ast.IfExp)
+    data_typed = [(nm_, d_) for nm_, d_ in grids if kwarg(d_, "dtype") is not None and "intensities" in unparse(kwarg(d_, "dtype"))]
+    key8 = "_set_intensities_com: the products I·k are formed in a type that cannot wrap around (default-typed grids, or patterns stored as floats)"
+    if grids:
+        if data_typed and not float_store:
+            check.violated("C18-R8", key8, f"`{data_typed[0][0]} = {unparse(data_typed[0][1])[:60]}` takes the dtype of the data and the intensities_4d setter keeps integer input: for uint8/uint16 "
+                           f"patterns `I * k` wraps around in the looped arm — the centre of mass is silently wrong and disagrees with the vectorised arm", dmod.line(data_typed[0][1]), definite=True)
+        else:
+            check.holds("C18-R8", key8, f"grids in the data's dtype: {bool(data_typed)}; patterns stored as floats: {float_store}", dmod.line(sfn))
     # ---- _set_intensities_com (vectorised and looped arms) --------------------------------------------
     ks = KAT(sfn).run()
     for n, m in ks.clashes:
